@@ -11,9 +11,11 @@ against the Lean driver; K2 three-way LP-dump equality: real `kFlowDecomp(flow_a
 kMinPathError (`lp.kcovernode`, `lp.klaenode`, `lp.kmpenode`: additional starts / ends, error_scaling keyed by node,
 path_length_ranges / factors), where "real node branch = real edge branch on the explicit expansion" is the property
 oracle and "real node branch = Lean node branch" the tie. Lean: node_mode_is_edge_mode_on_expansion_klae / _kmpe
-(unconditional) and _kcover (under the hypothesis that the two readings of the length attribute agree on the constraint
-edges; kcover_node_mode_length_witness shows it cannot be dropped: kPathCover builds its expansion without
-node_length_attr - finding C11-kpathcover-node-length-default).
+and _kcover, all unconditional. Until fix 65014a7 kPathCover / MinPathCover built their expansion without
+node_length_attr (former finding C11-kpathcover-node-length-default: attribute-less edge copies counted with length 1 in
+coverage_length constraints); its input stays as a regression case (COVER_LENGTH_WITNESS: three-way K2 plus an end-to-end
+check that k=1 is solved and MinPathCover answers 1 path), Lean: kcover_node_mode_length_regression,
+kcover_former_reading_differs, kcover_former_lp_eq.
 Oracle (property text, K5): for every class with a node mode, solve in node mode and solve the explicit expansion in
 edge mode: same solved status, same objective, returned routes use original node names and are walks of the original
 graph.
@@ -33,7 +35,8 @@ THEOREMS = ["FP.Props.C11." + t for t in [
     "node_mode_accepted_has_active",
     "node_mode_is_edge_mode_on_expansion_klae", "node_mode_is_edge_mode_on_expansion_kmpe",
     "node_mode_is_edge_mode_on_expansion_kcover", "kcover_lengths_agree_on_node_constraints",
-    "kcover_lengths_eq_of_all_edges", "node_branch_ignore_and_values", "kcover_node_mode_length_witness",
+    "kcover_lengths_eq_of_all_edges", "node_branch_ignore_and_values", "kcover_node_mode_length_regression",
+    "kcover_former_reading_differs", "kcover_former_lp_eq",
     "dotted_names_condense_witness", "first_constraint_empty_witness"]]
 IMPORTS = ["FP.Props.C11"]
 RULE = ("node-weighted digraphs on 1-7 nodes: random DAGs and digraphs with self-loops / 2-cycles / nested cycles, isolated "
@@ -723,7 +726,7 @@ def run_k2m(ctx, rng, n):
                 ctx.rep.sample({"k2m_case": k2})
 
 
-COVER_LENGTH_WITNESS = {          # FP.Props.C11.exCover / kcover_node_mode_length_witness
+COVER_LENGTH_WITNESS = {          # FP.Props.C11.exCover / kcover_node_mode_length_regression (defect repaired by 65014a7)
     "class": "kPathCover",
     "graph": {"nodes": ["a", "b", "c"], "edges": [["a", "b"], ["a", "c"], ["c", "b"]], "node_flow": {},
               "edge_flow": [], "node_len": {"a": 1, "b": 1, "c": 1}, "edge_len": [], "cyclic": False},
@@ -731,6 +734,32 @@ COVER_LENGTH_WITNESS = {          # FP.Props.C11.exCover / kcover_node_mode_leng
     "coverage_length": "3/4", "ignore": [], "given_weights": None, "options": dict(NO_SAFETY), "starts": [], "ends": [],
     "scaling": {}, "ranges": [], "factors": []}
 
+
+
+def cover_length_regression(ctx):
+    """the input of the former finding C11-kpathcover-node-length-default (repaired by 65014a7), end to end on the real
+    classes: the constraint edge (a, b) at coverage_length 3/4 is met by the path a, c, b (node lengths 1, the edge
+    itself has length 0), so k = 1 is solved and MinPathCover answers one path"""
+    fp = ctx.fp
+    w = COVER_LENGTH_WITNESS
+    k2m_case(ctx, copy.deepcopy(w))
+    G = build_G(w["graph"])
+    kw = dict(cover_type="node", subpath_constraints=[[tuple(e) for e in c] for c in w["constraints"]],
+              subpath_constraints_coverage_length=float(frac(w["coverage_length"])), length_attr=LEN)
+    ctx.rep.count("regression", "cover_length", nontrivial=True, hist=["kPathCover node coverage_length"])
+    ctx.rep.cov["oracle_evaluations"] += 1
+    try:
+        m = fp.kPathCover(G, k=1, **kw); m.solve()
+        one = m.is_solved() and [list(p) for p in m.get_solution()["paths"]] == [["a", "c", "b"]]
+        mm = fp.MinPathCover(G, **kw); mm.solve()
+        n = len(mm.get_solution()["paths"]) if mm.is_solved() else None
+    except Exception as e:
+        one, n = False, f"{type(e).__name__}: {str(e)[:80]}"
+    if not one or n != 1:
+        report(ctx, f"kPathCover(cover_type='node', k=1) on a->b, a->c->b with the edge constraint (a,b) at coverage_length 3/4 "
+                    f"solved with path a,c,b: {one}; MinPathCover answers {n} paths (expected 1): original edges must count "
+                    f"with length 0 as on the explicit expansion",
+               {"class": "kPathCover", "stage": "solve", "case": w}, site="kPathCover.node_mode.lp", sig="length regression")
 
 # ----------------------------------------------------------------------------- K5 (end-to-end metamorphic oracle)
 
@@ -1046,7 +1075,7 @@ def run(ctx):
     run_witnesses(ctx)
     run_k1(ctx, rng, ctx.n(400, 10000))
     run_k2(ctx, rng, ctx.n(250, 4000))
-    k2m_case(ctx, copy.deepcopy(COVER_LENGTH_WITNESS))
+    cover_length_regression(ctx)
     run_k2m(ctx, rng, ctx.n(120, 1500))
     run_k5(ctx, rng, ctx.n(20, 100))
     # the engine starts the failing-input search only when no violation was recorded at all; violations that are
